@@ -58,4 +58,42 @@ def matrixLit {α : Type} (rows : List (List (Mat α))) : Except Err (Mat α) :=
   | .ok [] => .error .other
   | .ok (r :: rs) => vcatAll r rs
 
+/-! ### the copy kernels (`CopyMat` in src/core/src/structures/matrix.rs) over the column-major buffer
+
+`copy_into`, `copy_into_v`, `copy_into_r` write the elements of the source, in storage order, over the positions
+`offset, offset+1, …` of the destination and return the number of elements; `copy_into_row_major` writes column `c`
+of the source over the positions `offset + c·R, …` (`R` the height of the destination), i.e. it places the source as
+a block whose top left corner is the linear position `offset`, and returns the height of the source.  Writing
+outside the buffer is an index panic; a source higher than the destination is an arithmetic panic.
+`tools/extract_concat.py` regenerates the four routines from the source as Lean definitions and
+`Lemmas/ConcatKernels.lean` proves them equal to these. -/
+
+/-- `dst` with `src` written over the positions `off, …, off + |src| - 1` -/
+def blit {α : Type} (src dst : List α) (off : Nat) : Except Err (List α) :=
+  if src.length = 0 then .ok dst
+  else if off + src.length ≤ dst.length then .ok (dst.take off ++ src ++ dst.drop (off + src.length))
+  else .error .index
+
+/-- `copy_into` / `copy_into_v` / `copy_into_r` -/
+def copyLin {α : Type} (src dst : Mat α) (off : Nat) : Except Err (Mat α × Nat) :=
+  match blit src.data dst.data off with
+  | .error e => .error e
+  | .ok d => .ok (⟨dst.rows, dst.cols, d⟩, src.rows * src.cols)
+
+/-- columns `c, c+1, …` (`n` of them) of the source, each `R` positions after the one before -/
+def blitCols {α : Type} (src : Mat α) (R : Nat) : Nat → Nat → List α → Nat → Except Err (List α)
+  | _, 0, d, _ => .ok d
+  | c, n + 1, d, pos =>
+    match blit (colOf src c) d pos with
+    | .error e => .error e
+    | .ok d' => blitCols src R (c + 1) n d' (pos + R)
+
+/-- `copy_into_row_major` -/
+def copyRowMajor {α : Type} (src dst : Mat α) (off : Nat) : Except Err (Mat α × Nat) :=
+  if dst.rows < src.rows then .error .overflow
+  else
+    match blitCols src dst.rows 0 src.cols dst.data off with
+    | .error e => .error e
+    | .ok d => .ok (⟨dst.rows, dst.cols, d⟩, src.rows)
+
 end MechVerif.Concat
